@@ -21,7 +21,7 @@ from .c10 import tri_area, tri_volume
 
 KINDS = ["Box", "Sphere", "Cylinder", "Capsule", "Extrusion"]
 OPS = ["set_param", "inplace_param", "set_transform", "inplace_transform", "set_center", "apply_transform", "apply_translation", "apply_scale", "read", "copy", "to_mesh",
-       "bad_attribute", "bad_transform", "cache_clear", "mirror_transform", "set_param_pair", "negate_height", "param_there_and_back", "height_minus_one_two"]
+       "bad_attribute", "bad_transform", "cache_clear", "mirror_transform", "set_param_pair", "negate_height", "param_there_and_back", "height_minus_one_two", "caller_edits_its_arrays"]
 READS = ["vertices", "faces", "volume", "area", "bounds", "face_normals", "moment_inertia", "is_watertight", "center_mass", "triangles"]
 SHELL = [(0, 0), (2, 0), (2.3, 1.2), (1, 2), (-0.2, 1)]
 HOLES = [[(0.6, 0.5), (1.2, 0.5), (1.0, 1.1)], [(1.4, 1.0), (1.8, 1.0), (1.6, 1.3)]]
@@ -38,13 +38,19 @@ def poly_perimeter(pts):
     return float(np.linalg.norm(p - np.roll(p, -1, axis=0), axis=1).sum())
 
 
-def construct(kind, m):
-    """A brand-new primitive from model parameters."""
+def construct(kind, m, src=None):
+    """A brand-new primitive from model parameters. With `src`, the arrays handed to the constructor are kept there (the caller's own
+    arrays, which the caller may go on using)."""
     import trimesh
 
     P = trimesh.primitives
     T = np.array(m["transform"], dtype=float)
+    if src is not None:
+        src["transform"] = T
     if kind == "Box":
+        if src is not None:
+            src["extents"] = np.array(m["extents"], dtype=float)
+            return P.Box(extents=src["extents"], transform=T)
         return P.Box(extents=list(m["extents"]), transform=T)
     if kind == "Sphere":
         return P.Sphere(radius=m["radius"], transform=T, subdivisions=m["subdivisions"])
@@ -116,6 +122,7 @@ class C15(World):
     def execute(self, program, ctx):
         cfg = program["config"]
         kind = cfg["kind"]
+        self._src = {}
         p = m = None
         bystander = by_vertices = None
         mutable = True
@@ -127,7 +134,9 @@ class C15(World):
                 if k == "build":
                     m = pycopy.deepcopy(op["model"])
                     mutable = op.get("mutable", True)
-                    p = construct(kind, m)
+                    src = {}
+                    p = construct(kind, m, src)
+                    self._src = src
                     if not mutable:
                         p = type(p)(**{**{kk: vv for kk, vv in (("radius", m["radius"]), ("height", m["height"]), ("extents", m["extents"]), ("sections", m["sections"]), ("subdivisions", m["subdivisions"])) if kk in self._ctor_keys(kind)},
                                        **({"polygon": p.primitive.polygon} if kind == "Extrusion" else {}), "transform": np.array(m["transform"]), "mutable": False})
@@ -274,7 +283,9 @@ class C15(World):
             name = names[op["which"] % len(names)]
             if name == "extents":
                 new = [m["extents"][0] * f, m["extents"][1], m["extents"][2] / f]
-                prim.extents = new
+                handed = np.array(new, dtype=float)
+                prim.extents = handed
+                self._src["extents"] = handed  # still the caller's array
                 m["extents"] = new
             else:
                 new = m[name] * f
@@ -309,6 +320,17 @@ class C15(World):
                 pass
             setattr(prim, name, old if old.ndim else float(old))
             return name
+        if k == "caller_edits_its_arrays":
+            # the arrays that were handed to the constructor (or to an assignment) are the caller's: it goes on using them
+            arrays = list(self._src.values())
+            if not arrays:
+                raise Inapplicable()
+            for a in arrays:
+                try:
+                    a += 0.375
+                except ValueError:
+                    pass
+            return "ok"
         if k == "height_minus_one_two":
             # two values a careless store hash cannot tell apart: CPython's hash(-1.0) == hash(-2.0)
             if kind != "Extrusion" or not mutable:
@@ -329,7 +351,9 @@ class C15(World):
             return self._inplace_param(kind, prim, m, op)
         if k == "set_transform":
             M = np.array(op["matrix"])
-            prim.transform = M
+            handed = M.copy()
+            prim.transform = handed
+            self._src["transform"] = handed  # still the caller's array
             m["transform"] = M.tolist()
             return "ok"
         if k == "inplace_transform":
